@@ -21,6 +21,17 @@ Oracle (implementation alone):
             is the index the host was built with and every join strictly improves THAT index — base module fresh, trained
             before being wrapped, shared by two hosts (the other one fitted first or not), its own `validity` assigned
             again behind the host, host deep-copied, host index assigned again; FuzzyART base as the control;
+        (d3) CVIART around (or as) a USER SUBCLASS whose documented hooks (`pre_step_fit`, `post_step_fit`, a wrapped
+            `step_fit`; on the base module or on the host) re-bind state to an equal container while fit runs — `labels_` as
+            int32 / int16 / int8 / uint8 / a fresh int64 array, `W` as an equal list, the counters as plain ints, every k-th
+            call from call p on.  In EVERY CVIART run of this file the labelling "before the step" is now the one in force —
+            what fit started from plus the assignments `base_module.step_fit` returned, recorded independently of the host's
+            `labels_` getter —: every join strictly improves the index on it, and after fit `labels_` (host and base module)
+            is exactly those assignments;
+        (d4) the record itself: fit stores an assignment with `host.labels_[i] = c`; for CVIART (three indices),
+            DualVigilanceART and TopoART (own attribute: control) and label arrays of int64 / int32 / int16 / int8 / uint8
+            stored through the host or the base module, the write is read back from the host and, where `labels_` is a
+            delegating property, from the base module;
         (f) data whose common offset is huge relative to its spread (a timestamp-like column ~1.7e9 fed to `iCVI_CH`
             directly, add/switch sequences; complement-coded rows confined to a band ~1e-8 wide for `iCVIFuzzyART`,
             offline and online): tracked value = the batch index computed in EXACT rational arithmetic from the same
@@ -525,8 +536,16 @@ def _blob_rows(r, n: int, d: int) -> np.ndarray:
     return np.array(rows, dtype=float).reshape(n, d)
 
 
-def _cviart_gate_run(ctx, funcs, m, X, mode, eps, epochs, rep, key, changed, index=None, sig=None):
-    """One observed `CVIART.fit` of the already configured estimator `m`.  The index of the gate clause is the one the
+SIG_LABELS_NOT_ASSIGNMENTS = "CVIART.fit:labels_ after fit is not the assignments made"
+
+
+def _cviart_gate_run(ctx, funcs, m, X, mode, eps, epochs, rep, key, changed, index=None, sig=None, situation=None):
+    """One observed `CVIART.fit` of the already configured estimator `m`.
+    "The labelling before the step" is the labelling IN FORCE: what fit started from (read from the base module at the
+    first step) plus the assignments `base_module.step_fit` has RETURNED since — recorded here, independently of what the
+    host's `labels_` getter hands out.  Every join of an existing category is judged on that labelling, and after fit
+    `labels_` (host and base module) must be exactly those assignments.  `situation` names the lifecycle in the
+    signature of a join that breaks the clause (user hooks re-binding state, ...).  The index of the gate clause is the one the
     ESTIMATOR REPORTS (`get_params()["validity"]`) when fit is called — not whatever value travels inside fit —: every
     join of an existing category must make the batch value of THAT index strictly better than before the step.
     With `index` given (d'') the clause is stated for that index — the one the caller configured the host with — whatever
@@ -552,6 +571,7 @@ def _cviart_gate_run(ctx, funcs, m, X, mode, eps, epochs, rep, key, changed, ind
     orig_match = m.CVI_match
     base = m.base_module
     orig_step = base.step_fit
+    force = {"lab": None, "stale": None}     # the labelling in force; first gate call that saw another one
 
     def wrapped_match(x, w, c_, params, extra, cache, _m=m, _o=orig_match):
         idx = int(extra["index"])
@@ -561,7 +581,10 @@ def _cviart_gate_run(ctx, funcs, m, X, mode, eps, epochs, rep, key, changed, ind
         if nW >= 2 and ans:
             # (the gate call does not touch labels_: the labelling before the step is still in place; only the calls
             #  that allowed the join are evaluated, a vetoed candidate is never looked at again)
-            lab = np.array(_m.labels_).copy()
+            seen = np.array(_m.labels_).astype(int)
+            lab = seen.copy() if force["lab"] is None else force["lab"].copy()
+            if force["stale"] is None and not np.array_equal(seen, lab):
+                force["stale"] = (len(steps), idx, int(c_), seen.tolist(), lab.tolist())
             try:
                 old = float(f(_m.data, lab))
                 lab2 = lab.copy()
@@ -575,7 +598,16 @@ def _cviart_gate_run(ctx, funcs, m, X, mode, eps, epochs, rep, key, changed, ind
     def wrapped_step(x, *a, _b=base, _o=orig_step, **kw):
         nc = len(_b.W)
         k0 = len(calls)
+        if force["lab"] is None:
+            # what fit starts from, as the base module holds it when the first sample is presented
+            try:
+                force["lab"] = np.array(_b.labels_).astype(int).copy()
+            except Exception:
+                force["lab"] = np.zeros(n, dtype=int)
+            if force["lab"].shape != (n,):
+                force["lab"] = np.zeros(n, dtype=int)
         c = _o(x, *a, **kw)
+        force["lab"][len(steps) % n] = int(c)
         steps.append((nc, int(c), calls[k0:]))
         return c
 
@@ -585,7 +617,7 @@ def _cviart_gate_run(ctx, funcs, m, X, mode, eps, epochs, rep, key, changed, ind
         with quiet():
             m.fit(X, max_iter=epochs, match_tracking=mode, epsilon=eps)
     except Exception as e:
-        if epochs > 1 and isinstance(e, ValueError) and "Number of labels is" in str(e):
+        if epochs > 1 and len(steps) >= n and isinstance(e, ValueError) and "Number of labels is" in str(e):
             # a later epoch met a labelling on which the batch index is undefined (every sample its own cluster,
             # or one cluster only): sklearn raises.  That is a totality defect (C04, finding F35); C15's gate
             # clause cannot be evaluated on this run
@@ -606,6 +638,27 @@ def _cviart_gate_run(ctx, funcs, m, X, mode, eps, epochs, rep, key, changed, ind
         ctx.issue("violation", "CVIART.fit:changes the validity index the estimator reports",
                   f"get_params()['validity'] was {reported!r} before fit and is {still!r} after", rep)
     labels = [int(t) for t in m.labels_]
+    if force["lab"] is not None and len(steps) >= n:
+        made = [int(t) for t in force["lab"]]
+        cov.hit("cviart:labels_-compared-with-the-assignments-step_fit-returned")
+        try:
+            held = [int(t) for t in np.asarray(base.labels_)]
+        except Exception:
+            held = None
+        if labels != made or held != made:
+            who = "labels_" if labels != made else "base_module.labels_"
+            got = labels if labels != made else held
+            bad = [j for j in range(n) if got is None or j >= len(got) or got[j] != made[j]]
+            ctx.issue("violation", SIG_LABELS_NOT_ASSIGNMENTS + (f":{situation}" if situation else ""),
+                      f"after fit {who} = {got} but base_module.step_fit returned the assignments {made} "
+                      f"({len(bad)} of {n} samples differ, first: sample {bad[0] if bad else '?'})"
+                      + (f" (configuration history: {rep.get('configured')})" if rep.get("configured") else ""),
+                      dict(rep, labels=labels, assignments=made))
+    if force["stale"] is not None:
+        cov.hit("cvi-gate:host-saw-a-labelling-other-than-the-assignments-made")
+        rep = dict(rep, first_gate_call_on_another_labelling=dict(
+            step=force["stale"][0], sample=force["stale"][1], candidate=force["stale"][2],
+            labels_seen_by_host=force["stale"][3], labelling_in_force=force["stale"][4]))
     for sidx, (nc, c, during) in enumerate(steps):
         idx = sidx % n
         if sidx >= n:
@@ -628,9 +681,15 @@ def _cviart_gate_run(ctx, funcs, m, X, mode, eps, epochs, rep, key, changed, ind
             cov.hit("cvi-gate:joined-existing:index-changed-after-construction")
         if index is not None:
             cov.hit("cvi-gate:joined-existing:judged-by-the-index-the-host-was-built-with")
-        better = old is not None and ((new < old) if clause == 2 else (new > old))
+        if old is None:
+            cov.hit("cvi-gate:index-undefined-on-the-labelling-in-force(not judged)")
+            continue
+        better = (new < old) if clause == 2 else (new > old)
         if not better:
-            if index is not None:
+            if situation is not None:
+                sg = f"CVIART.fit:{situation}:join without a strictly better index on the labelling in force:{vname}"
+                who = f"the estimator reports validity={vname}"
+            elif index is not None:
                 sg = f"{sig}:{vname}"
                 who = f"the host was configured with validity={vname} (it reports {rep['reported_validity']})"
             elif changed:
@@ -642,9 +701,9 @@ def _cviart_gate_run(ctx, funcs, m, X, mode, eps, epochs, rep, key, changed, ind
             ctx.issue("violation", sg,
                       f"{who}; sample {idx} (epoch {sidx // n}) joined the existing category "
                       f"{c}: {vname} of the labelling before the step {old!r}, after {new!r}"
-                      + (f" (configuration history: {rep.get('configured')})" if (changed or index is not None) else ""),
+                      + (f" (configuration history: {rep.get('configured')})" if (changed or index is not None or situation) else ""),
                       dict(rep, sample=idx, epoch=sidx // n))
-            if changed or index is not None:
+            if changed or index is not None or situation is not None:
                 break   # one report per reconfigured run: the following joins of the run repeat it
     for t in calls:
         cov.hit("cvi-gate:allowed" if t[2] else "cvi-gate:vetoed")
@@ -901,6 +960,221 @@ def check_cviart_base_with_own_validity(ctx):
         labels = _cviart_gate_run(ctx, funcs, m, X, mode, eps, epochs, rep, key, changed=False, index=v, sig=OWNV_SIG_GATE)
         if labels is not None and i < 2:
             cov.sample({"CVIART": rep["configured"], "params": p, "mode": mode, "n": n, "labels": labels})
+
+
+# ------------------------------------------------------------------ (d3) user subclasses whose hooks re-bind state
+#
+# `pre_step_fit` / `post_step_fit` are the documented extension points ("this is where pruning steps can go"); a user
+# subclass may also wrap `step_fit`.  The hooks below never change a VALUE: they re-store state the module owns in an
+# equal container — `labels_` in a narrower integer type (same labels, less memory), as a fresh equal array; `W` as an
+# equal list; the per-category counters as plain ints.  Through such a run the property reads as for any other: every
+# join of an existing category strictly improves the index of the labelling in force, and `labels_` is the assignments.
+
+HOOK_LABEL_ACTIONS = ["labels:int32", "labels:int32", "labels:int8", "labels:int16", "labels:uint8", "labels:int64-copy",
+                      "labels:int32-via-asarray", "labels:intc"]
+HOOK_OTHER_ACTIONS = ["W:equal-list", "W:copied-arrays", "counters:plain-ints", "counters:np.int64", "sample_counter:int",
+                      "none"]
+HOOK_WHERES = ["post_step_fit", "pre_step_fit", "post_step_fit", "step_fit-override", "host.post_step_fit",
+               "host.pre_step_fit", "post_step_fit"]
+
+
+def _hook_apply(obj, actions):
+    """value-preserving re-binding of state through the attributes of `obj` (a base module, or a host whose properties
+    delegate to its base module)"""
+    for a in actions:
+        if a == "labels:int32":
+            obj.labels_ = obj.labels_.astype(np.int32, copy=False)
+        elif a == "labels:int8":
+            obj.labels_ = obj.labels_.astype(np.int8)
+        elif a == "labels:int16":
+            obj.labels_ = obj.labels_.astype(np.int16, copy=False)
+        elif a == "labels:uint8":
+            obj.labels_ = obj.labels_.astype(np.uint8)
+        elif a == "labels:intc":
+            obj.labels_ = obj.labels_.astype(np.intc)
+        elif a == "labels:int64-copy":
+            obj.labels_ = np.array(obj.labels_, dtype=np.int64)
+        elif a == "labels:int32-via-asarray":
+            obj.labels_ = np.asarray(obj.labels_, dtype=np.int32)
+        elif a == "W:equal-list":
+            obj.W = list(obj.W)
+        elif a == "W:copied-arrays":
+            obj.W = [np.array(w, copy=True) for w in obj.W]
+        elif a == "counters:plain-ints":
+            obj.weight_sample_counter_ = [int(v) for v in obj.weight_sample_counter_]
+        elif a == "counters:np.int64":
+            obj.weight_sample_counter_ = [np.int64(v) for v in obj.weight_sample_counter_]
+        elif a == "sample_counter:int":
+            obj.sample_counter_ = int(obj.sample_counter_)
+
+
+def _hooked_classes(where, actions, period, phase):
+    """(base class, host class, call counter): ordinary user subclasses of FuzzyART / CVIART that run `actions` in the
+    hook `where` every `period` calls, starting at call number `phase`"""
+    tick = {"n": 0}
+
+    def due():
+        tick["n"] += 1
+        return tick["n"] >= phase and (tick["n"] - phase) % period == 0
+
+    class HookedFuzzyART(FuzzyART):
+        def pre_step_fit(self, X):
+            super().pre_step_fit(X)
+            if where == "pre_step_fit" and due():
+                _hook_apply(self, actions)
+
+        def post_step_fit(self, X):
+            super().post_step_fit(X)
+            if where == "post_step_fit" and due():
+                _hook_apply(self, actions)
+
+        def step_fit(self, x, *a, **kw):
+            c = super().step_fit(x, *a, **kw)
+            if where == "step_fit-override" and due():
+                _hook_apply(self, actions)
+            return c
+
+    class HookedCVIART(CVIART):
+        def pre_step_fit(self, X):
+            super().pre_step_fit(X)
+            if where == "host.pre_step_fit" and due():
+                _hook_apply(self, actions)
+
+        def post_step_fit(self, X):
+            super().post_step_fit(X)
+            if where == "host.post_step_fit" and due():
+                _hook_apply(self, actions)
+
+    return HookedFuzzyART, (HookedCVIART if where.startswith("host.") else CVIART), tick
+
+
+def check_cviart_hooked_subclasses(ctx):
+    """(d3) CVIART around / as a user subclass whose hooks re-bind `labels_`, `W`, the counters (values unchanged)"""
+    cov = ctx.cov
+    M = _sk()
+    funcs = {1: M.calinski_harabasz_score, 2: M.davies_bouldin_score, 3: M.silhouette_score}
+    N = ctx.scale(30, 420)
+    nmax = ctx.scale(20, 28)
+    for i in range(N):
+        r = gen.rng_for(ctx.seed, "C15-cviart-hooks", i)
+        validity = 1 + (i % 3)
+        where = HOOK_WHERES[(i // 3) % len(HOOK_WHERES)]
+        d, n, mode, eps, X, p, epochs = _cviart_inputs(r, i, nmax, blobs=(r.random() < 0.6))
+        if n < 8:
+            n = r.randint(8, nmax)
+            X = gen.cc(_blob_rows(r, n, d))
+        if r.random() < 0.6:
+            p["rho"] = r.choice([0.0, 0.25, 0.5])   # low vigilance: the index decides, not the base module
+            if p["rho"] == 0.0 and p["alpha"] == 0.0:
+                p["alpha"] = 2.0 ** -10
+        if i % 7 == 6:
+            actions = [r.choice(HOOK_OTHER_ACTIONS)]                       # control: labels_ is left alone
+        else:
+            actions = [r.choice(HOOK_LABEL_ACTIONS)]
+            if r.random() < 0.4:
+                actions.insert(r.randrange(2), r.choice(HOOK_OTHER_ACTIONS[:-1]))
+        period = r.choice([1, 1, 2, 3, 5])
+        phase = r.randint(1, max(1, min(6, n // 2)))
+        situation = "user subclass whose hook re-binds state to an equal container"
+        rep = {"validity": VI_NAMES[validity], "params": p, "mode": mode, "eps": eps, "X": X, "max_iter": epochs,
+               "hook": where, "hook_actions": actions, "hook_period": period, "hook_first_call": phase}
+        rep["configured"] = (f"{'HookedCVIART' if where.startswith('host.') else 'CVIART'}(HookedFuzzyART, "
+                             f"{VI_NAMES[validity]}); {where} runs {actions} every {period} call(s) from call {phase} on")
+        try:
+            with quiet():
+                Base, Host, tick = _hooked_classes(where, actions, period, phase)
+                m = Host(Base(p["rho"], p["alpha"], p["beta"]), validity)
+        except Exception as e:
+            ctx.issue("violation", f"CVIART.__init__:{exc_enum(e)}:user subclass", f"constructor raised {e!r}", rep)
+            continue
+        key = ("cviart-hooks", validity, where, tuple(actions), period, phase, p, mode, eps, X.tolist(), epochs)
+        labels = _cviart_gate_run(ctx, funcs, m, X, mode, eps, epochs, rep, key, changed=False, situation=situation)
+        if labels is None:
+            continue
+        cov.hit(f"cviart-hooks:{where}")
+        for a in actions:
+            cov.hit(f"cviart-hooks:{a}")
+        if tick["n"] >= phase:
+            cov.hit("cviart-hooks:hook-ran-during-fit")
+            if any(a.startswith("labels:") for a in actions):
+                cov.hit(f"cviart-hooks:labels_ held as {np.asarray(m.base_module.labels_).dtype} after fit")
+        if i < 2:
+            cov.sample({"CVIART": rep["configured"], "params": p, "mode": mode, "n": n, "labels": labels})
+
+
+# ------------------------------------------------------------------ (d4) the delegation of labels_ itself
+#
+# `fit` of every host records an assignment with `self.labels_[i] = c`: an item assignment on whatever the host's
+# `labels_` hands out.  That is only a record if the write is read back — from the host and, where the host's `labels_`
+# is a property delegating to the base module, from the base module — for ANY integer array stored there.
+
+DELEG_DTYPES = [np.int64, np.int32, np.int8, np.int16, np.intc, np.uint8]
+DELEG_HOSTS = ["CVIART:1", "CVIART:2", "CVIART:3", "DualVigilanceART", "TopoART"]
+
+
+def check_label_delegation(ctx):
+    from ..impl import DualVigilanceART, TopoART
+    cov = ctx.cov
+    N = ctx.scale(60, 300)
+    for i in range(N):
+        r = gen.rng_for(ctx.seed, "C15-labels-delegation", i)
+        hk = DELEG_HOSTS[i % len(DELEG_HOSTS)]
+        dt = DELEG_DTYPES[(i // len(DELEG_HOSTS)) % len(DELEG_DTYPES)]
+        via = ["host", "base"][(i // (len(DELEG_HOSTS) * len(DELEG_DTYPES))) % 2]
+        fitted = r.random() < 0.4
+        n = r.randint(3, 12)
+        k = r.randint(2, 5)
+        lab = [r.randrange(k) for _ in range(n)]
+        j = r.randrange(n)
+        c = r.choice([t for t in range(k + 1) if t != lab[j]])
+        dname = np.dtype(dt).name
+        rep = {"host": hk, "dtype": dname, "stored_via": via, "fitted_first": fitted, "labels": lab, "write": [j, c]}
+        try:
+            with quiet():
+                base = FuzzyART(0.5, 2.0 ** -10, 1.0)
+                if hk.startswith("CVIART"):
+                    host = CVIART(base, int(hk[-1]))
+                elif hk == "DualVigilanceART":
+                    host = DualVigilanceART(base, 0.25)
+                else:
+                    host = TopoART(base, 0.5, 3, 2)
+                if fitted:
+                    X0 = gen.cc(_blob_rows(r, 6, 2))
+                    try:
+                        host.fit(X0)
+                    except Exception:
+                        pass
+                cls = type(host).__name__
+                delegating = isinstance(getattr(type(host), "labels_", None), property)
+                arr = np.array(lab, dtype=dt)
+                if via == "base" and delegating:
+                    base.labels_ = arr
+                else:
+                    host.labels_ = arr
+                first = [int(t) for t in host.labels_]
+                host.labels_[j] = c
+                back = int(host.labels_[j])
+                at_base = int(base.labels_[j]) if delegating else None
+                same_obj = delegating and (host.labels_ is base.labels_)
+        except Exception as e:
+            ctx.issue("violation", f"{hk.split(':')[0]}.labels_:{exc_enum(e)}:{dname}",
+                      f"storing / reading / item-assigning an integer label array raised {e!r}", rep)
+            continue
+        cov.hit(f"labels-delegation:{cls}:{dname}")
+        cov.hit("labels-delegation:" + ("property-delegating-to-base_module" if delegating else "own-attribute(control)"))
+        if delegating:
+            cov.hit("labels-delegation:host.labels_ is base_module.labels_" if same_obj
+                    else "labels-delegation:host.labels_ is NOT the base module's array")
+        if first != lab:
+            ctx.issue("violation", f"{cls}.labels_:stored labels are not read back:{dname}",
+                      f"stored {lab} ({dname}) through the {via}, host.labels_ = {first}", rep)
+            continue
+        if back != c or (delegating and at_base != c):
+            lost = "host.labels_" if back != c else "base_module.labels_"
+            ctx.issue("violation", f"{cls}.labels_:item assignment through the host is lost:{dname}",
+                      f"labels_ holds {lab} as {dname} (stored through the {via}); after host.labels_[{j}] = {c}, "
+                      f"{lost}[{j}] = {back if back != c else at_base} — fit records every assignment this way", rep)
+        cov.case(("labels-delegation", hk, dname, via, fitted, tuple(lab), j, c), True)
 
 
 # ------------------------------------------------------------------ (f) huge common offset, exact rational reference
@@ -1258,5 +1532,7 @@ def run(ctx):
     check_cviart(ctx)
     check_cviart_reconfigured(ctx)
     check_cviart_base_with_own_validity(ctx)
+    check_cviart_hooked_subclasses(ctx)
+    check_label_delegation(ctx)
     check_offset_sequences(ctx)
     check_offset_icvi_fuzzy(ctx)
